@@ -602,4 +602,7 @@ FValsKw == {"i1", "l1"}
 FTokDeep == { <<"{", ":">>, <<"{", "}">>, <<"}">>, <<"{">>, <<"[", "]">>, <<"a">> }
 FValsOne == {"i1"}
 FTokSim == FTokFull \cup FTokSpec
+\* lexical edge forms of field names, character by character: sign, space, "_", non-ASCII digits
+FTokNames == { <<"{">>, <<"}">>, <<"0">>, <<"1">>, <<" ">>, <<"+">>, <<"-">>, <<"_">>, <<"<ar0>">>, <<"<sup2>">> }
+KwNamesEdge == { <<" ", "0">>, <<"0", " ">>, <<"+", "0">>, <<"-", "1">>, <<"0", "_">>, <<"<sup2>">>, <<"<ar0>">>, <<"0">> }
 =============================================================================
